@@ -6,6 +6,7 @@ package dsim
 import (
 	"bytes"
 	"fmt"
+	"os"
 	"runtime"
 	"sort"
 	"strconv"
@@ -144,6 +145,8 @@ type Stats struct {
 func newStats() Stats {
 	return Stats{FaultsFired: map[string]int{}, Probes: map[string]int{}, SiteReleases: map[string]int{}}
 }
+
+var debugParked = os.Getenv("DSIM_DEBUG_PARKED") != ""
 
 var progressCtr atomic.Int64 // bumped on every controller step; sampled by the real-time watchdog
 var curSim atomic.Pointer[Sim]
@@ -705,6 +708,18 @@ func (s *Sim) Release(t *Task) {
 	s.Stats.Steps++
 	s.Stats.Releases++
 	s.Stats.SiteReleases[siteClass(site)]++
+	if debugParked {
+		s.mu.Lock()
+		var ps []string
+		for _, x := range s.tasks {
+			if x.Parked && !x.Done {
+				ps = append(ps, fmt.Sprintf("%s/%s/b%d/o%v", x.Site, x.Label, x.BirthStep, x.Owned))
+			}
+		}
+		s.mu.Unlock()
+		sort.Strings(ps)
+		s.logf("   parked-before: %v", ps)
+	}
 	s.logf("run t%d %s", t.ID, site)
 	s.foldEvent(fmt.Sprintf("r%d %s %s", t.BirthStep, site, t.Label))
 	t.wake <- struct{}{}
